@@ -161,7 +161,7 @@ class ProvXMLSerializer(Serializer):
                 # associated xsi type, try to infer it from the value.
                 # The not startswith("prov:") check is a little bit hacky to
                 # avoid type interference when the type is a standard prov
-                # type.
+                # type given as a string (other kinds of value keep their type).
                 #
                 # To enable a mapping of Python types to XML and back,
                 # the XSD type must be written for these types.
@@ -180,7 +180,7 @@ class ProvXMLSerializer(Serializer):
                         or attr in [PROV_TYPE, PROV_LOCATION, PROV_VALUE]
                     )
                     and _ns_xsi("type") not in subelem.attrib
-                    and not str(value).startswith("prov:")
+                    and not (isinstance(value, str) and value.startswith("prov:"))
                     and not (attr in PROV_ATTRIBUTE_QNAMES and v)
                     and attr not in [PROV_ATTR_TIME, PROV_LABEL]
                 ):
